@@ -10,6 +10,7 @@ package secp256k1
 
 import (
 	"crypto"
+	_ "crypto/sha256" // links the SHA-256 implementation that crypto.SHA256.New() looks up at run time
 	"encoding/binary"
 	"errors"
 	"hash"
